@@ -366,7 +366,7 @@ def run_impl(pid, cfg, cases, rundir):
                                text=True, errors="replace", timeout=cfg["run_timeout"], cwd=rundir, env=goenv())
         except subprocess.TimeoutExpired:
             return None, "timeout"
-        outl = [l for l in p.stdout.splitlines() if l.startswith("{")]
+        outl = [l for l in p.stdout.split("\n") if l.startswith("{")]
         return outl, (p.stderr[-2000:] if p.returncode != 0 or len(outl) != len(chunks[j]) else "")
 
     with ThreadPoolExecutor(max_workers=k) as ex:
@@ -388,7 +388,7 @@ def gen_cases(pid, seed, tier):
         raise RuntimeError("mxh gen failed: " + rc.stderr[-2000:])
     seen = set()
     out = []
-    for l in rc.stdout.splitlines():
+    for l in rc.stdout.split("\n"):
         if l and l not in seen:
             seen.add(l); out.append(l)
     return out
@@ -509,7 +509,7 @@ def shrink(pid, cfg, res, cls, rundir, budget_s=60):
         rounds += 1
         p = subprocess.run([mxh_path(pid), "shrink", pid], input=json.dumps(cur["case"]) + "\n", stdout=subprocess.PIPE,
                            stderr=subprocess.PIPE, text=True, env=goenv())
-        cands = [l for l in p.stdout.splitlines() if l.strip()]
+        cands = [l for l in p.stdout.split("\n") if l.strip()]
         if not cands:
             break
         cands = cands[:200]
